@@ -155,7 +155,7 @@ func TestCheck(t *testing.T) {
 		"configs":                       cfgs,
 		"exhaustive":                    true,
 		"samples":                       st.Samples,
-		"rule":                          "all WAL programs of the stated depth over the alphabet {write transactions of 8-13 frame shapes, 5 SQLite checkpoint shapes, LiteFS recovery} from each (page size, start size); each program's every intermediate state is checked; transitions = individual file operations issued through the FUSE handlers",
+		"rule":                          "all WAL programs of the stated depth over the alphabet {write transactions of 11-16 frame shapes incl. release of the write lock by closing the -shm descriptor and torn trailing frames, 5 SQLite checkpoint shapes, LiteFS recovery} from each (page size, start size); each program's every intermediate state is checked; transitions = individual file operations issued through the FUSE handlers",
 	}
 	if st.Classes.N() < 3 && run.NViolations() == 0 {
 		run.HarnessError("vacuous: %d outcome classes", st.Classes.N())
